@@ -283,3 +283,29 @@ def sympy_equal(lhs, rhs, assume_positive=()):
                 res = res.replace(str(sy), "{" + repr(inv[sy])[:60] + "}")
         res = res[:600]
     return ok, res, time.time() - t0
+
+
+def sympy_derivative_equal(code_term, spec_term, var_term, scale_terms):
+    """code_term == prod(scale_terms) * d(spec_term)/d(var_term), exactly (rational functions + sqrt).
+    returns (ok, residue, seconds)"""
+    t0 = time.time()
+    cv = SymConv()
+    x = cv.conv(var_term)
+    if not isinstance(x, sympy.Symbol):
+        # differentiate with respect to a fresh symbol standing for the (compound) variable term
+        raise ValueError("derivative variable is not an atom")
+    spec = cv.conv(spec_term)
+    d = sympy.diff(spec, x)
+    for s in scale_terms:
+        d = d * cv.conv(s)
+    diff = sympy.simplify(sympy.cancel(sympy.together(cv.conv(code_term) - d)))
+    ok = diff == 0
+    res = ""
+    if not ok:
+        inv = {v: k for k, v in cv.atoms.items()}
+        res = str(diff)
+        for sy in sorted(diff.free_symbols, key=lambda s: -len(str(s))):
+            if sy in inv:
+                res = res.replace(str(sy), "{" + repr(inv[sy])[:50] + "}")
+        res = res[:500]
+    return ok, res, time.time() - t0
